@@ -110,8 +110,12 @@ def coq_build(targets, timeout=1500):
         if not ok:
             return False, "generator failed:\n" + out
         coq_project()
-        sh("timeout %d make -k -j16 2>&1" % timeout, cwd=COQ, timeout=timeout + 30)
-        rc, out = sh("timeout %d make %s 2>&1" % (timeout, " ".join(targets)), cwd=COQ, timeout=timeout + 30)
+        if not targets:       # setup: everything, continuing past a broken file
+            rc, out = sh("timeout %d make -k -j16 2>&1" % timeout, cwd=COQ, timeout=timeout + 30)
+            return rc == 0, out
+        # a check builds only what its property file depends on, so that a broken proof of
+        # another property cannot mask (or delay) this one
+        rc, out = sh("timeout %d make -j16 %s 2>&1" % (timeout, " ".join(targets)), cwd=COQ, timeout=timeout + 30)
         return rc == 0, out
 
 
@@ -157,22 +161,12 @@ def theorem_report(props_file, allowed_axioms=()):
 
 # ------------------------------------------------------------------ harness
 
-OVERLAY_TARGETS = {
-    # shim file (harness/overlay/…)  ->  path of the ADDED file inside /repo (never exists there)
-    "winapi_verif.go": "device/winapi/zz_verif_shim.go",
-    "data_verif.go": "data/zz_verif_shim.go",
-    "c2_verif.go": "c2/zz_verif_shim.go",
-    "cfg_verif.go": "c2/cfg/zz_verif_shim.go",
-    "crypto_verif.go": "data/crypto/zz_verif_shim.go",
-    "transform_verif.go": "c2/transform/zz_verif_shim.go",
-    "man_verif.go": "man/zz_verif_shim.go",
-    "device_verif.go": "device/zz_verif_shim.go",
-    "com_verif.go": "com/zz_verif_shim.go",
-    "task_verif.go": "c2/task/zz_verif_shim.go",
-    "wrapper_verif.go": "c2/wrapper/zz_verif_shim.go",
-    "filter_verif.go": "cmd/filter/zz_verif_shim.go",
-    "result_verif.go": "c2/task/result/zz_verif_shim.go",
-}
+def overlay_target(shim):
+    """harness/overlay/<pkg path with / written __>--<tag>.go  is ADDED to /repo/<pkg path>/zz_verif_<tag>.go
+    (a path that never exists in /repo), e.g. c2__cfg--c08.go -> /repo/c2/cfg/zz_verif_c08.go."""
+    base = shim[:-3]
+    pkg, tag = base.split("--", 1)
+    return os.path.join(REPO, pkg.replace("__", "/"), "zz_verif_%s.go" % tag)
 
 
 def build_harness(name, shims, tags="verif", extra_replace=None, timeout=600):
@@ -182,7 +176,7 @@ def build_harness(name, shims, tags="verif", extra_replace=None, timeout=600):
     os.makedirs(odir, exist_ok=True)
     rep = {}
     for s in shims:
-        rep[os.path.join(REPO, OVERLAY_TARGETS[s])] = os.path.join(HARNESS, "overlay", s)
+        rep[overlay_target(s)] = os.path.join(HARNESS, "overlay", s)
     for k, v in (extra_replace or {}).items():
         rep[k] = v
     ov = os.path.join(odir, "overlay.json")
@@ -239,10 +233,13 @@ def run_cases(casedir, jobs=16, timeout=1200):
 # ------------------------------------------------------------------ findings
 
 def load_findings():
-    p = os.path.join(VERIF, "known_findings.json")
-    if not os.path.exists(p):
-        return {"findings": [], "fixed": []}
-    return json.load(open(p))
+    """known_findings.d/Cxx.json files: {"findings": [{"property","key","what"}], "fixed": ["fixed: property=... <commit> ..."]}"""
+    out = {"findings": [], "fixed": []}
+    for p in sorted(glob.glob(os.path.join(VERIF, "known_findings.d", "*.json"))):
+        d = json.load(open(p))
+        out["findings"] += d.get("findings", [])
+        out["fixed"] += d.get("fixed", [])
+    return out
 
 
 def finding_for(prop, key, findings):
